@@ -153,15 +153,23 @@ class Runner:
     def cleanup(self):
         shutil.rmtree(self.tmp, ignore_errors=True)
 
-    def _tu_text(self, wits, which):
+    def _tu_text(self, wits, which, dead=()):
+        """witnesses with identical source text share one compiled function; returns (text, index per witness)"""
         parts = [WIT_HEADER if which == 'wit' else REF_HEADER]
+        seen, idx = {}, []
         for k, w in enumerate(wits):
             src = w.wit_src if which == 'wit' else w.ref_src
             if not src:
+                idx.append(-1); continue
+            if src in seen:
+                idx.append(seen[src]); continue
+            seen[src] = k
+            idx.append(k)
+            if k in dead:
                 continue
-            src = src.replace('@W@', 'w%d' % k).replace('@R@', 'r%d' % k)
-            parts.append('#line 1 "%s%d"\n%s\n' % ('w' if which == 'wit' else 'r', k, src))
-        return ''.join(parts)
+            body = src.replace('@W@', 'w%d' % k).replace('@R@', 'r%d' % k)
+            parts.append('#line 1 "%s%d"\n%s\n' % ('w' if which == 'wit' else 'r', k, body))
+        return ''.join(parts), idx
 
     def _compile(self, text, path_base, flags, wits, which):
         src = path_base + '.cpp'
@@ -178,7 +186,7 @@ class Runner:
         live = list(range(len(wits)))
         out = []
         # reference TU (plain C++, no Fastor): scalar, unvectorised, no contraction
-        ref_text = self._tu_text(wits, 'ref')
+        ref_text, ridx = self._tu_text(wits, 'ref')
         have_ref = any(w.ref_src for w in wits)
         if have_ref:
             src = base + '_ref.cpp'
@@ -189,24 +197,27 @@ class Runner:
                 self.broken.append('reference TU does not compile: ' + p.stderr[:500])
                 return out
         attempt = 0
+        dead = set()      # function indices whose source the front end rejects
         while True:
-            text = self._tu_text([wits[i] if i in live else Witness('', '', {}, '', '', [], [], []) for i in range(len(wits))], 'wit')
+            text, widx = self._tu_text(wits, 'wit', dead)
             p, bc = self._compile(text, base + '_wit', cfg.flags(), wits, 'wit')
             if p.returncode == 0:
                 break
             attempt += 1
             # attribute front-end errors to witnesses with a syntax-only pass that does not stop at the first error
-            q = run(['clang++'] + cfg.flags() + ['-I' + REPO, '-Wno-everything', '-fsyntax-only', '-ferror-limit=0', base + '_wit.cpp'])
+            q = run(['clang++'] + cfg.flags() + ['-I' + REPO, '-Wno-everything', '-fsyntax-only', '-ferror-limit=0', '-ftemplate-backtrace-limit=0', base + '_wit.cpp'])
             bad = attribute_errors(q.stderr, len(wits))
             if -1 in bad or not bad or attempt > 3:
                 self.broken.append('witness TU does not compile and errors cannot be attributed (%s): %s' % (cfg.key(), (q.stderr or p.stderr)[:600]))
                 return out
             for k, (msg, loc) in bad.items():
-                if k in live:
-                    live.remove(k)
-                    w = wits[k]
-                    out.append({'id': w.id, 'family': w.family, 'params': w.params, 'config': cfg.key(), 'isa': cfg.isa, 'status': 'uncompilable', 'error': msg, 'where': loc,
-                                'obligations': 1, 'discharged': 0})
+                dead.add(k)
+                for i in list(live):
+                    if widx[i] == k:
+                        live.remove(i)
+                        w = wits[i]
+                        out.append({'id': w.id, 'family': w.family, 'params': w.params, 'config': cfg.key(), 'isa': cfg.isa, 'status': 'uncompilable', 'error': msg, 'where': loc,
+                                    'obligations': 1, 'discharged': 0})
         if not live:
             return out
         spec = {'modules': {'wit': base + '_wit.bc'}, 'witnesses': []}
@@ -217,7 +228,7 @@ class Runner:
             stages = []
             for st in w.stages:
                 st = dict(st)
-                st['fn'] = st['fn'].replace('@W@', 'w%d' % i).replace('@R@', 'r%d' % i)
+                st['fn'] = st['fn'].replace('@W@', 'w%d' % widx[i]).replace('@R@', 'r%d' % ridx[i])
                 stages.append(st)
             spec['witnesses'].append({'id': w.id, 'regions': w.regions, 'stages': stages, 'obligations': w.obligations, **w.extra})
         sp = base + '_spec.json'
